@@ -283,7 +283,7 @@ func (s *requestStream) ReadResponse() (*http.Response, error) {
 	if bodyLength > 0 && (s.isHead || isInformational || isNoContent || res.StatusCode == http.StatusNotModified) {
 		bodyLength = 0
 	}
-	respBody := newResponseBody(s.stream, bodyLength, s.reqDone)
+	respBody := newResponseBody(s.ctx, s.stream, bodyLength, s.reqDone)
 	isSuccessfulConnect := s.isConnect && res.StatusCode >= 200 && res.StatusCode < 300
 	if (isInformational || isNoContent || isSuccessfulConnect) && res.ContentLength == -1 {
 		res.ContentLength = 0
